@@ -36,6 +36,16 @@ BODY_PREFIX = norm("""{
     while formatted_lines.back().is_some_and(|line| line_is_whitespace(line)) { formatted_lines.pop_back(); }
     let lines_vec: Vec<String> = formatted_lines.into_iter().collect();
     lines_vec.join("\\n")""")
+BODY_PREFIX_CR = norm("""{
+    let inner = source[3..source.len() - 3].replace("\\r\\n", "\\n").replace('\\r', "\\n");
+    let common_indent = get_common_indent(&inner);
+    let mut formatted_lines = inner.lines().enumerate().map(|(i, line)| {
+            if i == 0 { line.to_string() } else { line.chars().skip(common_indent).collect::<String>() }
+        }).collect::<VecDeque<String>>();
+    while formatted_lines.front().is_some_and(|line| line_is_whitespace(line)) { formatted_lines.pop_front(); }
+    while formatted_lines.back().is_some_and(|line| line_is_whitespace(line)) { formatted_lines.pop_back(); }
+    let lines_vec: Vec<String> = formatted_lines.into_iter().collect();
+    lines_vec.join("\\n")""")
 COMMON_INDENT = norm("""{
     let lines = source.lines().skip(1);
     let mut common_indent: Option<usize> = None;
@@ -76,9 +86,12 @@ CFG = {"prop": "C30", "file": F_SRC, "driver": "schema_driver", "what": "the des
 def extract(cfg=CFG):
     src = read_repo(cfg["file"])
     b = norm(body_of(src, "clean_block_string_literal"))
-    if not b.startswith(BODY_PREFIX):
+    if b.startswith(BODY_PREFIX):
+        rest, split_cr = b[len(BODY_PREFIX):], False
+    elif b.startswith(BODY_PREFIX_CR):
+        rest, split_cr = b[len(BODY_PREFIX_CR):], True
+    else:
         raise Inconclusive("encoding not regenerable: clean_block_string_literal is not the recognised statement sequence")
-    rest = b[len(BODY_PREFIX):]
     m = re.fullmatch(r"((?:\.replace\((?:\"(?:[^\"\\]|\\.)*\"|'(?:[^'\\]|\\.)+'),\"(?:[^\"\\]|\\.)*\"\))*)\}", rest)
     if not m:
         raise Inconclusive("encoding not regenerable: unrecognised tail of clean_block_string_literal: %s" % rest[:120])
@@ -91,7 +104,7 @@ def extract(cfg=CFG):
     for c in cfg["callers"]:
         if c not in nsrc:
             raise Inconclusive("encoding not regenerable: the caller no longer stores clean_block_string_literal(token text): %s" % c[:80])
-    return {"result_replace_chain": chain, "common_indent_over": indent_over}
+    return {"result_replace_chain": chain, "common_indent_over": indent_over, "lone_cr_ends_a_line": split_cr}
 
 
 S = z3.StringVal
@@ -116,7 +129,7 @@ def _replace_all_bounded(term, a, b, k=3):
     return rep_from(term, k)
 
 
-def build(shape, seps, tag, q, unescape_in_model_chain, indent_over="lines-with-content"):
+def build(shape, seps, tag, q, unescape_in_model_chain, indent_over="lines-with-content", split_cr=False):
     """shape: per line None (blank) or a tuple of units ('p' plain / 'e' escaped triple quote). Returns (token text term,
     model value term, spec value term, concrete builder info)."""
     L = len(shape)
@@ -145,42 +158,54 @@ def build(shape, seps, tag, q, unescape_in_model_chain, indent_over="lines-with-
         inner = piece if inner is None else z3.Concat(inner, S(seps[i - 1]), piece)
     token = z3.Concat(S(TQ), inner, S(TQ))
 
-    def value(contents, chain, over="lines-with-content"):
-        nonblank = [i for i in range(1, L) if shape[i] is not None or over == "all-lines"]
-        def indent_of(i):
+    def value(contents, chain, over="lines-with-content", split_cr=True):
+        """logical lines: the pieces, except that a lone CR does not end a line when split_cr is False (str::lines)"""
+        groups = [[0]]
+        for i in range(1, L):
+            if seps[i - 1] == "\r" and not split_cr:
+                groups[-1].append(i)
+            else:
+                groups.append([i])
+        G = len(groups)
+        g_ws = [ws[g[0]] for g in groups]
+        g_blank = [len(g) == 1 and shape[g[0]] is None for g in groups]
+        g_text = []
+        for g in groups:
+            t = z3.Concat(ws[g[0]], contents[g[0]])
+            for i in g[1:]:
+                t = z3.Concat(t, S("\r"), ws[i], contents[i])
+            g_text.append(t)
+        counted = [k for k in range(1, G) if not g_blank[k] or over == "all-lines"]
+        def indent_of(k):
             # str::lines() yields no final empty line: an empty last line does not take part (only matters when blank lines count)
-            if over == "all-lines" and i == L - 1 and shape[i] is None:
-                return z3.If(z3.Length(ws[i]) == 0, z3.IntVal(1000), z3.Length(ws[i]))
-            return z3.Length(ws[i])
-        if nonblank:
-            ci = indent_of(nonblank[0])
-            for i in nonblank[1:]:
-                ci = z3.If(indent_of(i) < ci, indent_of(i), ci)
+            if over == "all-lines" and k == G - 1 and g_blank[k]:
+                return z3.If(z3.Length(g_ws[k]) == 0, z3.IntVal(1000), z3.Length(g_ws[k]))
+            return z3.Length(g_ws[k])
+        if counted:
+            ci = indent_of(counted[0])
+            for k in counted[1:]:
+                ci = z3.If(indent_of(k) < ci, indent_of(k), ci)
             ci = z3.If(ci >= 1000, z3.IntVal(0), ci)
         else:
             ci = z3.IntVal(0)
-        lines = []
-        for i in range(L):
-            full = z3.Concat(ws[i], contents[i])
-            lines.append(full if i == 0 else z3.SubString(full, ci, z3.Length(full)))
-        keep = [i for i in range(L) if shape[i] is not None]
+        lines = [g_text[k] if k == 0 else z3.SubString(g_text[k], ci, z3.Length(g_text[k])) for k in range(G)]
+        keep = [k for k in range(G) if not g_blank[k]]
         if not keep:
             return S("")
-        lo, hi = keep[0], keep[-1]
-        out = lines[lo]
-        for i in range(lo + 1, hi + 1):
-            out = z3.Concat(out, S("\n"), lines[i])
+        out = lines[keep[0]]
+        for k in range(keep[0] + 1, keep[-1] + 1):
+            out = z3.Concat(out, S("\n"), lines[k])
         return apply_chain(out, chain)
 
     # the recognised replace chain acts on the joined result; within the alphabet (no quote or backslash outside the escape unit) every
     # occurrence of the escape is an escape unit, so replacing all occurrences equals taking each unit's replaced text
     if unescape_in_model_chain == []:
-        mval = value(content_raw, [], indent_over)
+        mval = value(content_raw, [], indent_over, split_cr)
     elif unescape_in_model_chain == [(ETQ, TQ)]:
-        mval = value(content_val, [], indent_over)
+        mval = value(content_val, [], indent_over, split_cr)
     else:
         raise Inconclusive("encoding not regenerable: replace chain %r on the result is outside the supported subset" % (unescape_in_model_chain,))
-    return token, mval, value(content_val, []), (ws,)
+    return token, mval, value(content_val, [], "lines-with-content", True), (ws,)
 
 
 def spec_concrete(token):
@@ -226,7 +251,7 @@ def main(cfg=CFG):
         binary = build_native(cfg["driver"])
         # ---- stage 0 (not solver-decided; a guard that does not depend on the extractor): probe tokens through the real parser
         PROBES = ['"""aa"""', '"""\n a\n  a#\n \u00e9\n"""', '"""a\n  a"""', '"""\n\n \t\n  a \n\n"""', '"""  a\n  a\n \u00e9"""', '"""a\r\n a\r\n  #"""',
-                  '"""\u00e9 #\n\t\u00e9"""', '"""a\\"""a"""', '"""\n  \\"""\n  a\n"""', '""""""', '"""  """', '"""\n  a\n"""', '"""hello\n    world\n      !"""']
+                  '"""\u00e9 #\n\t\u00e9"""', '"""a\\"""a"""', '"""\n  \\"""\n  a\n"""', '""""""', '"""  """', '"""\n  a\n"""', '"""hello\n    world\n      !"""', '"""a\r  a\r   #"""', '"""\r a\r"""']
         real = run_driver(binary, PROBES)
         for tok, r in zip(PROBES, real):
             want = spec_concrete(tok)
@@ -247,10 +272,8 @@ def main(cfg=CFG):
         # ---- translator validation: the composed term, pinned to the probe tokens it can express, equals the real parser
         def shape_of_token(tok):
             inner = tok[3:-3]
-            if "\r" in inner.replace("\r\n", ""):
-                return None
-            seps = re.findall(r"\r\n|\n", inner)
-            lines = re.split(r"\r\n|\n", inner)
+            seps = re.findall(r"\r\n|\n|\r", inner)
+            lines = re.split(r"\r\n|\n|\r", inner)
             shape, pins = [], []
             for ln in lines:
                 wsl = len(ln) - len(ln.lstrip(" \t"))
@@ -274,7 +297,7 @@ def main(cfg=CFG):
                 continue
             shape, seps, pins = so
             q = Query("C30_validate", simple=True)
-            token, mval, sval, _ = build(shape, seps, "v", q, chain, X["common_indent_over"])
+            token, mval, sval, _ = build(shape, seps, "v", q, chain, X["common_indent_over"], X["lone_cr_ends_a_line"])
             q.add(token == S(tok))
             out = z3.String("out")
             q.add(out == mval)
@@ -295,11 +318,11 @@ def main(cfg=CFG):
                     continue
                 if L >= 3 and sum(1 for s in shape if s is not None and len(s) > 1) > 1:
                     continue            # bound: at most one line with two units once there are three or more lines
-                for seps in itertools.product(("\n", "\r\n"), repeat=L - 1):
+                for seps in itertools.product(("\n", "\r\n", "\r"), repeat=L - 1):
                     if L > 2 and len(set(seps)) > 1:
                         continue        # bound: one kind of line terminator per string once there are three or more lines
                     q = Query("C30_shape", solver_timeout_s=60, simple=True)
-                    token, mval, sval, _ = build(list(shape), list(seps), "s", q, chain, X["common_indent_over"])
+                    token, mval, sval, _ = build(list(shape), list(seps), "s", q, chain, X["common_indent_over"], X["lone_cr_ends_a_line"])
                     q.add(mval != sval)
                     r = q.check(cross_check=False)
                     n_q += 1
@@ -342,7 +365,7 @@ def main(cfg=CFG):
                        "enumerated block-string shapes with symbolic indentation and content; the specification's BlockStringValue is the oracle; models are replayed through the real parser (public API).",
         "functions_encoded": [cfg["file"] + "::clean_block_string_literal", "get_common_indent", "line_is_whitespace", "is_not_whitespace", "its callers"],
         "extracted": X, "source_fingerprint": repo_fingerprint([cfg["file"]]),
-        "bounds": dict(B, indentation="0..2 spaces/tabs per line", content="units: a character of {a, \u00e9, #, space} or the escaped triple quote", terminators="LF or CRLF"),
+        "bounds": dict(B, indentation="0..2 spaces/tabs per line", content="units: a character of {a, \u00e9, #, space} or the escaped triple quote", terminators="LF, CRLF or CR"),
         "queries": queries, "queries_discharged": n_q, "solver_time_s": round(solver_s, 2),
         "translator_validation_inputs_agreeing": n_valid,
         "evaluations": n_q + n_valid, "distinct_nontrivial": n_unsat + len(samples),
@@ -351,7 +374,7 @@ def main(cfg=CFG):
     }
     assumptions = [
         "PARTIAL: only the value of block strings; " + cfg["outside"],
-        "a lone carriage return as line terminator (which str::lines does not split on) is outside the bound; so are other characters than the listed alphabet",
+        "characters other than the listed alphabet are outside the bound",
         cfg["replay_note"],
     ]
     write_evidence(PROP, "other", cov, assumptions, time.time() - t0, len(violations))
